@@ -104,6 +104,10 @@ def check_section(ctx: Ctx, case) -> None:
     text = "[Song]\n{\n  Resolution = %d\n}\n[SyncTrack]\n{\n  0 = TS 4\n%s}\n[Events]\n{\n%s}\n" % (
         case["res"], "".join(f"  {t} = B {n}\n" for t, n in case["tempo"]),
         "".join(b + "\n" for b in body))
+    if len(body) % 3 == 0:
+        # an instrument section with its own E lines (track events) next to the global events
+        decoy = "[ExpertSingle]\n{\n  0 = N 0 0\n  0 = E solo\n  0 = E lyric\n  0 = E section\n}\n"
+        text = text + decoy if len(body) % 2 else text.replace("[Events]\n{", decoy + "[Events]\n{", 1)
     rc = {"res": case["res"], "tempo": case["tempo"], "events_body": body}
     tk = [ln["tick"] for ln in lines]
     unsorted_multi = len(case["tempo"]) > 1 and tk != sorted(tk)
